@@ -71,4 +71,27 @@ theorem path_resolves (env : Env) (steps : List Index) :
     cases r1 <;> simp [index_eq_resolveStep]
     split <;> simp_all
 
+/-- paths compose: resolving `s₁ ++ s₂` is resolving `s₂` from where `s₁` ends (an error of `s₁` is final) -/
+theorem resolve_append (v : Value) (s1 s2 : List Index) :
+    resolve v (s1 ++ s2) = match resolve v s1 with
+      | .ok w => resolve w s2
+      | other => other := by
+  induction s1 generalizing v with
+  | nil => simp [resolve]
+  | cons i rest ih =>
+    simp only [List.cons_append, resolve]
+    cases h : resolveStep v i <;> simp [ih]
+
+/-- every path from None ends in None: a step into None never fails and never produces data -/
+theorem resolve_none (steps : List Index) : resolve .none steps = .ok .none := by
+  induction steps with
+  | nil => rfl
+  | cons i rest ih => cases i <;> simpa [resolve, resolveStep] using ih
+
+/-- a non-empty path into a scalar is a type error, whatever the steps are -/
+theorem resolve_scalar (v : Value) (i : Index) (rest : List Index)
+    (hm : v.ty ≠ .map) (hv : v.ty ≠ .vec) (hn : v.ty ≠ .none) :
+    resolve v (i :: rest) = .err .invalidType := by
+  cases i <;> cases v <;> simp_all [resolve, resolveStep, Value.ty]
+
 end Reval
